@@ -29,8 +29,8 @@ FLOORS = {
     'quick': {'round_trips': 200, 'fmt:yml': 40, 'fmt:json': 40, 'fmt:pkl': 40, 'site:thread': 30,
               'site:process': 8, 'value_compares': 3000, 'history_compares': 1500, 'second_saves': 100,
               'resaves_of_loaded': 100, 'with_extra_data': 40, 'cycles_on': 30, 'hostile_constants': 500,
-              'files_opened_seen': 400, 'workbook_changed_on_disk_after_compile': 30, 'real_book_cases': 40,
-              'real_value_compares': 3000},
+              'files_opened_seen': 400, 'workbook_changed_on_disk_after_compile': 30, 'real_book_cases': 20,
+              'real_value_compares': 2000},
     'thorough': {'round_trips': 5000, 'site:process': 200, 'site:thread': 800, 'cycles_on': 800,
                  'hostile_constants': 12000},
 }
